@@ -190,7 +190,7 @@ func main() {
 		}
 		evaluated++
 		gz.ResetTab()
-		mode := r.Intn(20)
+		mode := r.Intn(22)
 		switch {
 		case mode < 10:
 			st.Count("mode:pack")
@@ -256,6 +256,34 @@ func main() {
 			}
 			w.Add(VL(VS("pack"), kind, VN(int64(lim)), VB(ids), gz.TabVal(), g.Val()), VL(packObs, unpObs))
 			distinct.Add(human)
+		case mode >= 20: // Packs and an Unpack of ONE sub-protocol instance under a forced interleaving
+			st.Count("mode:cross")
+			socket.SetMessageSizeLimit(c05lib.BigLim)
+			g := c05lib.GenMessage(r, st, pf)
+			if len(g.Body) > 20000 {
+				g.Body = g.Body[:20000]
+			}
+			ids := c05lib.GenIds(r, false)
+			out, res, _, _ := c05lib.PackOne(sub, g, ids)
+			if res != "ok" {
+				break
+			}
+			spec := &c05lib.XSpec{Name: name, PF: sub, EOF: true, Frames: [][]byte{out}}
+			for j, k := 0, 1+r.Intn(3); j < k; j++ {
+				og := c05lib.GenMessage(r, st, pf)
+				if len(og.Body) > 2000 {
+					og.Body = og.Body[:2000]
+				}
+				oids := c05lib.GenIds(r, false)
+				spec.Out = append(spec.Out, func() socket.Message { return og.NewMessage(oids) })
+			}
+			x, _ := spec.Run(r, st, i)
+			obs := "sfail"
+			if x.OK {
+				obs = x.Unp[0]
+			}
+			w.Add(VL(VS("msgs"), kind, VN(c05lib.BigLim), gz.TabVal(), VL(VB(out))), VL(obs))
+			distinct.Add(c05lib.Clip(fmt.Sprintf("%s cross ids=%x msg=%s %s", name, ids, g.Val(), x.Sched)))
 		case mode >= 13 && mode < 15: // one message arriving in chunks while the same instance sends
 			st.Count("mode:duplex")
 			socket.SetMessageSizeLimit(c05lib.BigLim)
